@@ -13,7 +13,7 @@ def run(tier):
     progs += en.curated(names=["deep3", "lite"], manual=True)
     classes = en.cls("REQ", "GUARD", "CONSUME", "STATUS", "PLANRESULT", "SELECT", "RNG")
     args = ["--tier", tier, "--dev", "2" if thorough else "1", "--batch", "1", "--classes", str(classes),
-            "--dev-immediate", "1", "--imm-reduced", "1", "--deadline", str(1500 if thorough else 150)]
+            "--dev-immediate", "1", "--imm-reduced", "1", "--deadline", str(en.TD if thorough else 150)]
     if not thorough:
         # the two smallest programs once more with two deviations (e.g. two guards cancelling in the same round)
         d2 = en.curated(names=["flat3"]) + [en.Prog("tinyortho", "O(C(l,l),l)"), en.Prog("tinyortho2", "C(O(l,l),l)")]
@@ -28,7 +28,7 @@ def run(tier):
             p.args = ["--dev", "1", "--batch", "1", "--deadline", "90"]
         progs += fam
         chk.coverage["program_families"] = {"programs": len(fam), "rule": "all ordered trees with <= 4 states (every region kind headed; composite/resumable/orthogonal also headless) + spine family (kind chains of depth 3 in two orientations, depth 4 over C/O/R)"}
-    res = en.run_all(chk, "C16", progs, args, timeout=(2400 if thorough else 400))
+    res = en.run_all(chk, "C16", progs, args, timeout=(en.TD + 900 if thorough else 400))
     en.aggregate(chk, res, "C16")
     chk.coverage["explanation"] = (
         "The exhaustive exploration runs with a recording logger attached (interface mode and verbose mode; programs "
